@@ -49,6 +49,7 @@ type stressIter struct {
 	orderViol atomic.Pointer[string]
 	deadlock  atomic.Pointer[string] // set by the monitor
 	shutReq   atomic.Bool            // the harness has called Shutdown/ShutdownAndWait
+	big       []*swk                 // start-up family: all workers (immutable during the iteration)
 }
 
 func (w *swk) release() { w.rel.Do(func() { close(w.early) }) }
@@ -114,6 +115,14 @@ func monitor(c *vf.Ctx) {
 				leaked = append(leaked, w)
 			}
 		}
+		for _, w := range it.big {
+			if !w.started.Load() || w.returned.Load() {
+				continue
+			}
+			if p := w.ctx.Load(); p != nil && (*p).Err() == nil {
+				leaked = append(leaked, w)
+			}
+		}
 		dump := func() string {
 			var d strings.Builder
 			for _, g := range gs {
@@ -142,7 +151,11 @@ func monitor(c *vf.Ctx) {
 		// any more, and a started worker's context is not cancelled. Where the shutdown caller is
 		// parked only goes into the message.
 		var names []string
-		for _, w := range leaked {
+		for i, w := range leaked {
+			if i == 8 {
+				names = append(names, fmt.Sprintf("... %d more", len(leaked)-8))
+				break
+			}
 			names = append(names, fmt.Sprintf("%s(order %d, kind %s)", w.name, w.order, w.kind))
 		}
 		msg := fmt.Sprintf("free-running: shutdown was requested and every goroutine of the process is parked for ever, but the context of accepted, started worker(s) %v was never cancelled (a Shutdown/ShutdownAndWait caller parked in sync.WaitGroup.Wait: %v)", names, shutParked)
@@ -500,6 +513,8 @@ func runStress(c *vf.Ctx, batch, from, iters int, race bool, repeat int) {
 		for r := 0; r < repeat; r++ {
 			if i%3 == 2 {
 				reregOne(c, s, batch, i, race) // worker exit vs. re-registration of its name
+			} else if i%6 == 1 {
+				startupOne(c, s, batch, i, race) // shutdown requested by a worker while Start is launching
 			} else {
 				stressOne(c, s, batch, i, race)
 			}
